@@ -52,6 +52,52 @@ def programs(tier):
     return progs
 
 
+def labels_of(text):
+    return [int(m.group(1)) for m in (re.match(r"\s*(\d+)(\s|$)", ln) for ln in text.split("\n")) if m]
+
+
+def history(ctx):
+    """the text an option adds must not depend on what this process converted before: convert P after programs that
+    need other runtime procedures / other declarations, compare with P converted in a fresh process"""
+    import json
+    import subprocess
+    import sys
+
+    from vf.core import REPO
+
+    befores = ['10 CLS : PLAY "A" : SOUND 1 , 2 : HBUFF 1 , 100\n', '10 DIM N$ , M$ ( 3 ) : N$ = "A"\n', '10 HSCREEN 2 : HCIRCLE ( 1 , 2 ) , 3 : Z = JOYSTK ( 0 )\n']
+    targets = ['10 A = 1\n', '10 N$ = "B" : PRINT N$\n', '10 HBUFF 1 , 100\n', '10 PRINT "X"\n']
+    optsets = [dict(output_dependencies=True, procname="prog"), dict(output_dependencies=True), dict(default_str_storage=40, initialize_vars=True), dict()]
+    from coco.b09 import compiler
+
+    for t in targets:
+        for opts in optsets:
+            code = "import sys, json; sys.path.insert(0, %r); from coco.b09 import compiler; print(json.dumps(compiler.convert(%r, **%r)))" % (REPO, t, opts)
+            r = subprocess.run([sys.executable, "-c", code], env=dict(os.environ, PYTHONHASHSEED="0"), capture_output=True, text=True, timeout=120)
+            if r.returncode != 0:
+                continue
+            fresh = json.loads(r.stdout)
+            for b in befores:
+                for bo in optsets:
+                    try:
+                        compiler.convert(b, **bo)
+                    except Exception:  # noqa: BLE001
+                        pass
+            ctx.stats["programs"] += 1
+            ctx.stats["obligations"] += 1
+            try:
+                got = compiler.convert(t, **opts)
+            except Exception as e:  # noqa: BLE001
+                got = f"<{type(e).__name__}>"
+            again = compiler.convert(t, **opts) if not got.startswith("<") else got
+            if got == fresh and again == fresh:
+                ctx.stats["identity"] += 1
+            else:
+                extra = sorted(set(re.findall(r"(?im)^procedure\s+(\S+)", got)) - set(re.findall(r"(?im)^procedure\s+(\S+)", fresh)))
+                kind = "bundle-grows" if extra else "text"
+                ctx.violation(f"history:{kind}:{sorted(opts)[:2]}", f"{t!r} {opts}: output after other conversions differs from a fresh process" + (f" (extra procedures {extra[:6]})" if extra else ""), {"source": t, "options": opts})
+
+
 def strip_labels(text):
     return "\n".join(re.sub(r"^(\s*)\d+(\s|$)", r"\1", ln) for ln in text.split("\n"))
 
@@ -167,6 +213,9 @@ def check_one(src):
     else:
         if strip_labels(o[1]) != strip_labels(B):
             sig("filter:text", "statements differ beyond labels")
+        lab_b, lab_o = set(labels_of(B)), set(labels_of(o[1]))
+        if lab_o - lab_b:
+            sig("filter:label-appears", f"with filtering on the output has labels {sorted(lab_o - lab_b)} that the unfiltered output lacks")
         semantic(B, o[1], "filter")
     # 2. pre-initialisation off: only prologue assignments and fill loops disappear
     o = conv(initialize_vars=False)
@@ -322,6 +371,7 @@ def run(tier):
         ctx.sample({"source": r["src"], "status": r.get("status"), "pairs": r["pairs"]})
     cli(ctx)
     file_path(ctx)
+    history(ctx)
     ctx.add_solver_stats(smt.STATS.export())
     ctx.extra["solver"] = {"z3": smt.z3_version()}
     ctx.explanation = "programs counts converted outputs (base + one per option); the behavioural comparisons are z3-decided leaf-pair obligations"
